@@ -564,7 +564,7 @@ func init() {
 	}
 	genOwned := func(t *rapid.T) crypto.OwnedKeys {
 		ok := crypto.OwnedKeys{Owner: genJIDz().Draw(t, "owner")}
-		for n := rapid.IntRange(0, 3).Draw(t, "nkeys"); n > 0; n-- {
+		for n := listLen(t, "nkeys", 3); n > 0; n-- {
 			ok.Keys = append(ok.Keys, genKey(t))
 		}
 		return ok
@@ -601,7 +601,7 @@ func init() {
 		name: "crypto.TrustMessage", byValue: true,
 		gen: func(t *rapid.T) crypto.TrustMessage {
 			tm := crypto.TrustMessage{Usage: genText().Draw(t, "usage"), Encryption: genText().Draw(t, "encryption")}
-			for n := rapid.IntRange(0, 3).Draw(t, "nowners"); n > 0; n-- {
+			for n := listLen(t, "nowners", 3); n > 0; n-- {
 				tm.Keys = append(tm.Keys, genOwned(t))
 			}
 			return tm
